@@ -107,7 +107,7 @@ func H_c12_admission() {
 	// ---- URIs
 	uriMode, cfgURI, reqURI := 2, "/a", "/a"
 	if focus == 0 {
-		uriMode = nondet_choice("cfg-uris", 4)
+		uriMode = nondet_choice("cfg-uris", 5)
 		cfgURI = "/" + verifSymText("cfg-uri", 1)
 		reqURI = "/" + verifSymText("req-uri", 1)
 	} else if nondet_bool("uri-mismatch") {
@@ -120,6 +120,8 @@ func H_c12_admission() {
 		h.Config.Uris = []string{cfgURI}
 	case 3:
 		h.Config.Uris = []string{"/zz", cfgURI}
+	case 4: // an empty entry next to a real one configures the real one (only [""] means "any")
+		h.Config.Uris = []string{"", cfgURI}
 	}
 
 	// ---- User-Agent
